@@ -138,3 +138,17 @@ def impl_eval(case):
     out["e3"] = _try_eval(c, case["split"], fmap) if case.get("split") else {"ok": False, "exc": "skip"}
     out["inexact"] = flags["inexact"] or any(out[k].get("inexact") for k in ("e1", "e2", "e3"))
     return out
+
+
+def impl_hier_rename(case):
+    from hier import rename_at
+
+    out = {}
+    for tag, r in (("a", case["routine"]), ("b", rename_at(case["routine"], case["path"], case["pi"]))):
+        try:
+            out[tag] = dict(impl_hier_compile({"routine": r}), ok=True)
+        except BaseException as e:  # noqa: BLE001
+            if type(e).__name__ == "CaseTimeout":
+                raise
+            out[tag] = {"ok": False, "exc": type(e).__name__, "msg": str(e)[:300]}
+    return out
